@@ -157,11 +157,40 @@ pub fn alphabet_c13_carriers(rx: (f64, f64)) -> Vec<Ev> {
     v
 }
 
+/// longitude-zone rounding ties: pairs whose index argument (NL-1)*XZ_even - NL*XZ_odd is exactly a negative or
+/// positive half-integer (NL = 59 near 5 deg north), next to an ordinary pair
+pub fn alphabet_c13_lonties() -> Vec<Ev> {
+    let lat = 5.0;
+    let (ye, _) = crate::cprref::encode(lat, 0.05, false);
+    let (yo, _) = crate::cprref::encode(lat, 0.05, true);
+    let mut v = vec![];
+    let inv59 = (1..131072i64).find(|x| (59 * x) % 131072 == 1).unwrap_or(1);
+    for (i, xe) in [46i64, 1046, 300].into_iter().enumerate() {
+        // 58*xe - 59*xo = -65536 (mod 131072)
+        let xo = ((58 * xe + 65536).rem_euclid(131072) * inv59).rem_euclid(131072);
+        v.push(fr(&format!("a1.tie{i}.even"), enc::es_frame(17, 5, A1, enc::me_pos(11, 0, 0, enc::ac12_q(9000), 0, false, ye, xe as u32))));
+        v.push(fr(&format!("a1.tie{i}.odd"), enc::es_frame(17, 5, A1, enc::me_pos(11, 0, 0, enc::ac12_q(9000), 0, true, yo, xo as u32))));
+    }
+    v.extend(pos_letters("a1.plain", A1, (lat, 0.05), 9000));
+    v
+}
+
+/// a pair that decodes to exactly 0 N 0 E (all four CPR values zero) next to an ordinary aircraft
+pub fn alphabet_c14_nullisland() -> Vec<Ev> {
+    let mut v = vec![];
+    for odd in [false, true] {
+        v.push(fr(&format!("a1.zero.{}", if odd { "odd" } else { "even" }), enc::es_frame(17, 5, A1, enc::me_pos(11, 0, 0, enc::ac12_q(5000), 0, odd, 0, 0))));
+    }
+    v.extend(pos_letters("a2.p", A2, (0.2, 0.1), 7000));
+    v.push(fr("a1.identAAA", enc::es_frame(17, 5, A1, enc::me_ident(4, 0, "AAA"))));
+    v
+}
+
 /// raw position reports on and next to the polar zone latitudes: even YZ 0 in zone 45 is exactly -90 deg (270 before the
 /// wrap), odd YZ 32768 in zone 44 likewise; even YZ 0 in zone 15 / odd YZ 98304 in zone 14 are exactly +90 deg
 pub fn alphabet_c13_poles(south: bool) -> Vec<Ev> {
     let xz = 10_923; // 30 deg east at NL = 1
-    let (evens, odds): (Vec<u32>, Vec<u32>) = if south { (vec![200, 0, 1], vec![33_100, 33_050, 32_768]) } else { (vec![130_900, 0, 131_071], vec![98_200, 98_250, 98_304]) };
+    let (evens, odds): (Vec<u32>, Vec<u32>) = if south { (vec![200, 0, 1], vec![33_100, 33_050, 32_768]) } else { (vec![130_900, 0, 131_071, 1, 200], vec![98_200, 98_250, 98_304]) };
     let mut v = vec![];
     for yz in evens {
         v.push(fr(&format!("a1.even.yz{yz}"), enc::es_frame(17, 5, A1, enc::me_pos(11, 0, 0, enc::ac12_q(9000), 0, false, yz, xz))));
